@@ -24,14 +24,19 @@ import (
 // AdmitJob is one worker job of part C.
 type AdmitJob struct {
 	Kind string `json:"kind"` // matrix-tls-off | matrix-tls-on | client | redirect
+	Mode string `json:"mode,omitempty"` // matrix: play | record | lists ("" = all)
 	Only string `json:"only,omitempty"`
 }
 
 func admitJobs() []Job {
 	var out []Job
-	for _, k := range []string{"matrix-tls-off", "matrix-tls-on", "redirect"} {
-		out = append(out, Job{Admit: &AdmitJob{Kind: k}})
+	// one job per (server, mode): a library panic provoked by one row does not hide the verdicts of the others
+	for _, k := range []string{"matrix-tls-off", "matrix-tls-on"} {
+		for _, m := range []string{"play", "record", "lists"} {
+			out = append(out, Job{Admit: &AdmitJob{Kind: k, Mode: m}})
+		}
 	}
+	out = append(out, Job{Admit: &AdmitJob{Kind: "redirect"}})
 	for _, row := range clientRows() {
 		out = append(out, Job{Admit: &AdmitJob{Kind: "client", Only: row}})
 	}
@@ -165,14 +170,15 @@ func (a *admit) matrix(tlsOn bool) {
 	}
 	n := 0
 	type rowT struct {
-		mode string
-		alts []trSpec
+		mode  string
+		alts  []trSpec
+		group string
 	}
 	var rows []rowT
 	for _, mode := range []string{"play", "record"} {
 		for _, p := range []string{"avp", "savp"} {
 			for _, d := range []string{"udp", "tcp", "mcast"} {
-				rows = append(rows, rowT{mode, []trSpec{{p, d}}})
+				rows = append(rows, rowT{mode, []trSpec{{p, d}}, mode})
 			}
 		}
 	}
@@ -181,9 +187,12 @@ func (a *admit) matrix(tlsOn bool) {
 		{{"avp", "udp"}, {"savp", "udp"}}, {{"savp", "udp"}, {"avp", "udp"}}, {{"avp", "udp"}, {"avp", "tcp"}},
 		{{"savp", "tcp"}, {"savp", "udp"}}, {{"avp", "mcast"}, {"avp", "udp"}}, {{"savp", "tcp"}, {"avp", "tcp"}},
 	} {
-		rows = append(rows, rowT{"play", l})
+		rows = append(rows, rowT{"play", l, "lists"})
 	}
 	for _, row := range rows {
+		if a.job.Mode != "" && a.job.Mode != row.group {
+			continue
+		}
 		var names []string
 		anySAVP := false
 		for _, t := range row.alts {
